@@ -3,6 +3,7 @@
 //!
 //! Form events:   {fam, op, ..., outs: [{forms, out}]}                (agreement only)
 //! Clone machine: {fam: "clone", op, dst, src, k, regs: [int; NREG]}   (state after the step)
+use dashu_base::SquareRoot as _;
 use dashu_base::{DivEuclid, DivRemEuclid, Inverse, RemEuclid};
 use dashu_float::{Context, FBig, Repr};
 use dashu_int::fast_div::ConstDivisor;
@@ -49,6 +50,36 @@ fn float_case<R: dashu_float::round::Round, const B: Word>(log: &mut Log, mode: 
             outs.push("r", guarded(|| fval(&(&x).inv())));
             outs.push("ctx", guarded(|| fval(&Context::<R>::new(prec).inv(x.repr()).value())));
         }
+        // the transcendental and power methods: the binary one works at the larger operand precision like the operators
+        "powf" => {
+            outs.push("m", guarded(|| fval(&x.powf(&y))));
+            outs.push("ctx", guarded(|| fval(&ctx.powf(x.repr(), y.repr()).value())));
+        }
+        "powi" => {
+            let k = IBig::from(n / 8);
+            outs.push("m", guarded(|| fval(&x.powi(k.clone()))));
+            outs.push("ctx", guarded(|| fval(&Context::<R>::new(prec).powi(x.repr(), k.clone()).value())));
+        }
+        "sqrt" => {
+            outs.push("m", guarded(|| fval(&x.sqrt())));
+            outs.push("ctx", guarded(|| fval(&Context::<R>::new(prec).sqrt(x.repr()).value())));
+        }
+        "exp" => {
+            outs.push("m", guarded(|| fval(&x.exp())));
+            outs.push("ctx", guarded(|| fval(&Context::<R>::new(prec).exp(x.repr()).value())));
+        }
+        "exp_m1" => {
+            outs.push("m", guarded(|| fval(&x.exp_m1())));
+            outs.push("ctx", guarded(|| fval(&Context::<R>::new(prec).exp_m1(x.repr()).value())));
+        }
+        "ln" => {
+            outs.push("m", guarded(|| fval(&x.ln())));
+            outs.push("ctx", guarded(|| fval(&Context::<R>::new(prec).ln(x.repr()).value())));
+        }
+        "ln_1p" => {
+            outs.push("m", guarded(|| fval(&x.ln_1p())));
+            outs.push("ctx", guarded(|| fval(&Context::<R>::new(prec).ln_1p(x.repr()).value())));
+        }
         "neg" => {
             outs.push("v", guarded(|| fval(&(-x.clone()))));
             outs.push("r", guarded(|| fval(&(-&x))));
@@ -81,7 +112,9 @@ fn float_random(log: &mut Log, rng: &mut Rng) {
     let base = *rng.pick(&[2u64, 10, 16, 3]);
     let mode = *rng.pick(MODES);
     let prec = 1 + rng.below(30) as usize;
-    let op = *rng.pick(&["add", "sub", "mul", "div", "sqr", "cubic", "inv", "neg", "shl", "shr", "add", "sub"]);
+    let op = *rng.pick(&["add", "sub", "mul", "div", "sqr", "cubic", "inv", "neg", "shl", "shr", "add", "sub",
+                         "powf", "powf", "powi", "sqrt", "exp", "exp_m1", "ln", "ln_1p"]);
+    let transcendental = matches!(op, "powf" | "powi" | "sqrt" | "exp" | "exp_m1" | "ln" | "ln_1p");
     // half of the time the right operand has its own (larger or smaller) precision
     let prec_b = if rng.coin() { prec } else { 1 + rng.below(30) as usize };
     let sa = random_sig(rng, base, prec);
@@ -90,8 +123,11 @@ fn float_random(log: &mut Log, rng: &mut Rng) {
         sb = IBig::ONE;
     }
     let sa = if op == "inv" && sa == IBig::ZERO { IBig::ONE } else { sa };
-    let ea = rng.range(-40, 40) as isize;
-    let eb = ea + rng.range(-(prec as i64) - 3, prec as i64 + 3) as isize;
+    // moderate magnitudes for the series-based methods (their cost grows with the magnitude); a positive base for
+    // powf / ln / sqrt most of the time (a negative one must panic in every form alike)
+    let sa = if transcendental && rng.below(8) != 0 { IBig::from(UBig::try_from(if sa < IBig::ZERO { -sa } else { sa }).unwrap()) } else { sa };
+    let ea = if transcendental { -(rng.below(prec as u64 + 3) as isize) + rng.range(-2, 3) as isize } else { rng.range(-40, 40) as isize };
+    let eb = if transcendental { -(rng.below(prec_b as u64 + 2) as isize) } else { ea + rng.range(-(prec as i64) - 3, prec as i64 + 3) as isize };
     let n = rng.range(-70, 70) as isize;
     dispatch_base!(base, B => dispatch_mode!(mode, R => {
         float_case::<R, B>(log, mode, op, &Repr::<B>::new(sa, ea), &Repr::<B>::new(sb, eb), prec, prec_b, n)
